@@ -8,6 +8,7 @@ LEVEL_TEXT = ("Differential execution monitoring: generated queries (own generat
               "the source engine, sqlglot.transpile output runs on the target engine over the same NULL-bearing database, "
               "rows compared as multisets or as sequences under a total ORDER BY, for sqlite->duckdb, duckdb->sqlite and "
               "both identity pairs. Held on the executions observed; other engines are out of reach.")
+LEVEL_TEXT += (' Explicit aliases that shadow column names, DISTINCT ON and QUALIFY are generated where the result is determined (never next to a projected window, whose value would depend on tie-breaking).')
 LEVEL_NOTE = ("trusts SQLite 3.40.1 and DuckDB 1.5.5 as the meaning of each dialect; cross pairs are limited to the common "
               "fragment listed in DESIGN.md (no integer division, no LIKE on letters, no mixed-type comparison)")
 TECHNIQUE = "runtime monitoring: differential execution of source text vs transpiled text on real engines"
